@@ -181,3 +181,135 @@ pub fn evaluate(compiled: &Snapshot, instance: &Snapshot) -> RowVerdict {
     }
     RowVerdict::Satisfied
 }
+
+// --------------------------------------------------------------- I-sigma
+
+fn le64(b: &[u8], off: usize) -> Option<u64> {
+    let s = b.get(off..off + 8)?;
+    let mut x = [0u8; 8];
+    x.copy_from_slice(s);
+    Some(u64::from_le_bytes(x))
+}
+
+fn be64(b: &[u8], off: usize) -> Option<u64> {
+    let s = b.get(off..off + 8)?;
+    let mut x = [0u8; 8];
+    x.copy_from_slice(s);
+    Some(u64::from_be_bytes(x))
+}
+
+/// The four sigma polynomials (coefficient form) of `Prover::to_bytes()`.
+fn sigma_polys(prover_bytes: &[u8]) -> Option<(usize, Vec<Vec<Fr>>)> {
+    use dusk_bytes::Serializable;
+    let label_len = be64(prover_bytes, 0)? as usize;
+    let pk = prover_bytes.get(48 + label_len..)?;
+    let n = le64(pk, 0)? as usize;
+    let eval_size = le64(pk, 8)? as usize;
+    let mut off = 16;
+    let mut polys = Vec::new();
+    for _ in 0..15 {
+        let plen = le64(pk, off)? as usize;
+        off += 8;
+        let mut coeffs = Vec::with_capacity(plen);
+        for i in 0..plen {
+            let s = pk.get(off + 32 * i..off + 32 * i + 32)?;
+            let mut x = [0u8; 32];
+            x.copy_from_slice(s);
+            coeffs.push(Option::<Fr>::from(Fr::from_bytes(&x))?);
+        }
+        off += 32 * plen + eval_size;
+        polys.push(coeffs);
+    }
+    Some((n, polys.split_off(11)))
+}
+
+/// The compiled permutation must encode exactly the copy constraints of the
+/// compiled layout: sigma is a permutation of the 4n cells whose cycles are
+/// the sets of cells wired to one witness; every other cell is a fixed point.
+pub fn check_sigma(prover_bytes: &[u8], compiled: &Snapshot) -> Result<(), String> {
+    use dusk_bytes::Serializable;
+    let (n, sig) = sigma_polys(prover_bytes).ok_or("cannot parse the sigma polynomials out of the prover encoding")?;
+    let rows = compiled.selectors.len();
+    if n != rows.next_power_of_two().max(1) {
+        return Err(format!("prover key domain {} does not match {} rows", n, rows));
+    }
+    let (_, omega) = crate::rm_verify::domain_for(n as u64).ok_or("no domain")?;
+    let ks = [Fr::one(), Fr::from(7u64), Fr::from(13u64), Fr::from(17u64)];
+    let mut roots = Vec::with_capacity(n);
+    let mut r = Fr::one();
+    for _ in 0..n {
+        roots.push(r);
+        r *= omega;
+    }
+    // cell id = wire * n + row
+    let mut lookup = std::collections::BTreeMap::new();
+    for w in 0..4 {
+        for (i, root) in roots.iter().enumerate() {
+            lookup.insert((ks[w] * root).to_bytes(), w * n + i);
+        }
+    }
+    let mut next = vec![usize::MAX; 4 * n];
+    for w in 0..4 {
+        for (i, root) in roots.iter().enumerate() {
+            let mut acc = Fr::zero();
+            for c in sig[w].iter().rev() {
+                acc = acc * root + c;
+            }
+            match lookup.get(&acc.to_bytes()) {
+                Some(cell) => next[w * n + i] = *cell,
+                None => return Err(format!("sigma_{}(w^{}) is not a cell of the permutation domain", w + 1, i)),
+            }
+        }
+    }
+    let mut seen = vec![false; 4 * n];
+    for t in &next {
+        if seen[*t] {
+            return Err("sigma is not a permutation of the cells".into());
+        }
+        seen[*t] = true;
+    }
+    // classes of the compiled layout
+    let mut class_of = vec![usize::MAX; 4 * n];
+    let mut class_size = vec![0usize; compiled.witnesses.len().max(1)];
+    for (row, ws) in compiled.wires.iter().enumerate() {
+        for (w, wt) in ws.iter().enumerate() {
+            class_of[w * n + row] = *wt;
+            class_size[*wt] += 1;
+        }
+    }
+    let mut visited = vec![false; 4 * n];
+    for start in 0..4 * n {
+        if visited[start] {
+            continue;
+        }
+        let cls = class_of[start];
+        let mut len = 0;
+        let mut c = start;
+        loop {
+            if class_of[c] != cls {
+                return Err(format!("the compiled permutation links cell (row {}, wire {}) to a cell of another witness", start % n, start / n));
+            }
+            visited[c] = true;
+            len += 1;
+            c = next[c];
+            if c == start {
+                break;
+            }
+            if len > 4 * n {
+                return Err("sigma cycle does not close".into());
+            }
+        }
+        let want = if cls == usize::MAX { 1 } else { class_size[cls] };
+        if len != want {
+            return Err(format!(
+                "the cells wired to witness {} form a cycle of length {} in the compiled permutation instead of {} (cell row {}, wire {}): a copy constraint is missing",
+                cls as isize,
+                len,
+                want,
+                start % n,
+                start / n
+            ));
+        }
+    }
+    Ok(())
+}
